@@ -165,14 +165,14 @@ theorem upperHull_good (pts : List Pt) (hs : pts.Pairwise LexLe) : GoodHull (upp
       hullRev pts = l2.reverse ++ m.reverse ++ l1.reverse := by
     intro l1 l2 m h
     have := congrArg List.reverse h
-    simp only [upperHull, List.reverse_reverse, List.reverse_append] at this
+    simp only [upperHull_eq, List.reverse_reverse, List.reverse_append] at this
     rw [this]; simp
   refine ⟨?_, ?_, ?_, ?_, ?_, ?_⟩
   · intro h hh
-    exact inv.sub h (by simpa [upperHull] using hh)
+    exact inv.sub h (by simpa [upperHull_eq] using hh)
   · have := inv.sorted
     unfold SortedDesc at this
-    simpa [upperHull, List.pairwise_reverse] using this
+    simpa [upperHull_eq, List.pairwise_reverse] using this
   · intro l1 a b l2 heq q hq
     have h := (belowAll_iff q _).mp (inv.below q hq) l2.reverse a b l1.reverse
     apply h
@@ -186,7 +186,7 @@ theorem upperHull_good (pts : List Pt) (hs : pts.Pairwise LexLe) : GoodHull (upp
     have hsorted : (upperHull pts).Pairwise LexLe := by
       have := inv.sorted
       unfold SortedDesc at this
-      simpa [upperHull, List.pairwise_reverse] using this
+      simpa [upperHull_eq, List.pairwise_reverse] using this
     rw [heq] at hsorted
     have h3 := (List.pairwise_append.mp hsorted).2.1
     have h01 : LexLe r0 r1 := (List.pairwise_cons.mp h3).1 r1 (by simp)
@@ -200,9 +200,9 @@ theorem upperHull_good (pts : List Pt) (hs : pts.Pairwise LexLe) : GoodHull (upp
       rw [← hx] at hc
       nlinarith
   · have := inv.bottom
-    simpa [upperHull, List.head?_reverse] using this
+    simpa [upperHull_eq, List.head?_reverse] using this
   · have := inv.top
-    simpa [upperHull, List.getLast?_reverse] using this
+    simpa [upperHull_eq, List.getLast?_reverse] using this
 
 /-! ### `interpIndex` -/
 
